@@ -87,3 +87,17 @@ JOBS = [
          unwind=7, replayer=FZ_SPEC,
          **S12),
 ]
+
+# ---- C11: ghost-free bounded stand-in (no overlay => cannot drift): the real rle.c as it is, streaming decoder in the middle
+# of a buffered bit-packed group, two chunks (get_batch/get_batch and skip/get_batch) inside the group, all group contents.
+# Decides the delivery order also after the copy loop of get_batch/skip was restructured (seed C11-7).
+for _nm, _defs in [('c11_rle_plain_chunks', []), ('c11_rle_plain_skip_then_get', ['CQV_SKIP_FIRST=1'])]:
+    JOBS.append(dict(name=_nm, prop='C11', overlays=[], harness='harness/C11/rle_plain.c', includes=['.'],
+                     defines=['CQV_MEMCPY_EXACT=32'] + _defs, entry='h_plain_chunks', loop_contracts=False, unwind=10, unwindset=['memcpy.0:34'],
+                     level='bounded', bound='both chunks inside one buffered group: c1 + c2 <= bitpack_count - bitpack_pos <= 8; '
+                     'any group contents, group position, bit width 0..32, pending run length',
+                     tier='thorough', backend='sat', checks=['--bounds-check', '--pointer-check'],
+                     functions=['carquet_rle_decoder_get_batch', 'carquet_rle_decoder_skip', 'carquet_rle_decoder_has_next'],
+                     est_s=520, timeout=1500, wip=True,   # skip/get twin seen ok once (510 s); get/get twin and the seed C11-7 run did not finish in that session
+                     replayer=dict(kind='direct', harness='replay/direct/rle_chunks_selftest.c', sources=RLE_SRCS, vars={}),
+                     note='no overlay: decides in-group delivery order also after the copy loop of get_batch was restructured'))
